@@ -87,8 +87,9 @@ def exact_case(draw):
 def pow_case(draw):
     a = draw(operand())
     p = draw(st.integers(-3, 3))
-    if p <= 0:
-        pass
+    if p > 0 and draw(st.integers(0, 4)) == 0:
+        # a measured zero raised to a positive power: still a result with a non-negative (finite) uncertainty
+        a = {"x": [0.0, 2.0] if isinstance(a["x"], list) else 0.0, "e": draw(st.sampled_from([0.1, 0.25, 2.0]))}
     return {"kind": "pow", "a": a, "p": p, "neg": draw(st.booleans())}
 
 
@@ -298,9 +299,17 @@ def check_pow(case, v):
     A = _mk(a)
     if case["neg"]:
         A = -A
-    r = A ** p
-    err = r.abse()
     txt = f"({'-' if case['neg'] else ''}Magnitude({a['x']!r},{a['e']!r}))**{p}"
+    try:
+        with np.errstate(all="ignore"):
+            r = A ** p
+    except ZeroDivisionError as e:
+        if p < 0 and np.any(_np(a["x"]) == 0):
+            return v.discard("zero-to-negative-power")
+        return v.fail("pow-raised", f"{txt} raised {e!r}")
+    err = r.abse()
+    if err is not None and np.any(np.isnan(_np(err))) and not np.any(np.isnan(_np(r.value()))):
+        return v.fail("negative-error", f"{txt} has error {err!r} (not a number)")
     if not _nonneg(err):
         return v.fail("negative-error", f"{txt} has error {err!r}")
     if a["e"] is None and err is not None:
